@@ -40,6 +40,10 @@ pub struct PiConsts {
 impl PiConsts {
     pub fn load(path: &str) -> PiConsts {
         let h = std::fs::read_to_string(path).unwrap_or_else(|e| die(&format!("pi digits {}: {}", path, e)));
+        Self::from_hex(&h)
+    }
+    /// the hexadecimal digits themselves (the interpreter runs with isolation on and gets them through argv)
+    pub fn from_hex(h: &str) -> PiConsts {
         let h = h.trim();
         if h.len() < 8 * (18 + 1024) {
             die("pi digit file too short");
@@ -231,6 +235,8 @@ impl<'a> BWorld<'a> {
     }
 
     fn compare(&mut self, i: usize, n: usize, what: &str) -> Result<(), BViolation> {
+        // under the interpreter a probe costs ~1 ms: a few per step, 48 at the end
+        let n = if cfg!(miri) { n.div_ceil(86).min(48).max(3) } else { n };
         if let (Some(r), Some(m)) = (&self.real[i], &self.model[i]) {
             for lr in probe_pairs(n, self.step as u64 * 131 + i as u64) {
                 self.probes += 1;
@@ -487,6 +493,44 @@ fn gen_ops(rng: &mut Prng, max_cost: u8) -> Vec<BOp> {
         ops.push(op);
     }
     ops
+}
+
+/// Short histories for the interpreter engines (other byte orders / pointer widths): the same generator, cost
+/// loops of 2^0 rounds, truncated to `max_ops` operations.
+pub fn export_lists(seed: u64, count: u64, max_ops: usize) -> Vec<Value> {
+    (0..count)
+        .map(|i| {
+            let mut rng = Prng::new(run_seed(seed ^ 0xC14_E7, i));
+            let mut ops = gen_ops(&mut rng, 0);
+            ops.truncate(max_ops.max(2));
+            json!({"ops": ops.iter().map(|o| o.to_json()).collect::<Vec<_>>()})
+        })
+        .collect()
+}
+
+/// Interpreter entry: `pi_hex`, then (label, json) pairs. Prints one `@c14` line per list; returns the exit code.
+pub fn exec_lists(pi_hex: &str, pairs: &[String]) -> i32 {
+    let pi = PiConsts::from_hex(pi_hex);
+    let mut rc = 0;
+    for pair in pairs.chunks(2) {
+        if pair.len() < 2 {
+            die("c14 <pi hex> (<label> <json>)...");
+        }
+        let v: Value = serde_json::from_str(&pair[1]).unwrap_or_else(|e| die(&format!("parse {}: {}", pair[0], e)));
+        let mut ops = Vec::new();
+        for o in v.get("ops").and_then(|x| x.as_array()).unwrap_or_else(|| die("no ops")) {
+            ops.push(BOp::from_json(o).unwrap_or_else(|| die("bad op")));
+        }
+        let (viol, probes, kinds) = execute(&pi, &ops);
+        match viol {
+            Some(x) => {
+                println!("@c14 {} {}", pair[0], json!({"status": "violation", "class": x.class, "step": x.step, "detail": x.detail, "probes": probes}));
+                rc = 1;
+            }
+            None => println!("@c14 {} {}", pair[0], json!({"status": "ok", "ops": kinds.len(), "probes": probes})),
+        }
+    }
+    rc
 }
 
 fn execute(pi: &PiConsts, ops: &[BOp]) -> (Option<BViolation>, u64, Vec<&'static str>) {
